@@ -14917,3 +14917,141 @@ func ruleIntegerBodyBounded(c *Ctx) {
 	}
 	c.Floor("integer-body-bounded.sites", n, 1)
 }
+
+// ruleGroupFlagReset (C02): a store walk that handles its pairs group by group (the transfer batches of one account
+// after the other) keeps the group it is in, and what it has decided about that group, in variables the callback
+// captures. A boolean decision raised inside the callback ("everything that follows of this account goes") is taken
+// back inside the callback too - where the group changes - or it holds for every later group: every account sorted
+// after the first one that loses a batch loses all but its first. In pkg/core, in a callback that re-assigns a captured
+// group variable, each captured boolean that is set to true in the callback is also set to false in it.
+func ruleGroupFlagReset(c *Ctx) {
+	n := 0
+	for _, fd := range c.P.AllFuncDecls() {
+		if pkgRel(fd.Pkg.Types) != "pkg/core" || fd.Decl.Body == nil {
+			continue
+		}
+		info := fd.Pkg.TypesInfo
+		ast.Inspect(fd.Decl.Body, func(x ast.Node) bool {
+			fl, ok := x.(*ast.FuncLit)
+			if !ok {
+				return true
+			}
+			captured := func(o types.Object) bool {
+				return o != nil && o.Pos() < fl.Pos() && o.Pos() > fd.Decl.Pos()
+			}
+			tracksGroup := false
+			setTrue := map[types.Object]token.Pos{}
+			setFalse := map[types.Object]bool{}
+			ast.Inspect(fl.Body, func(y ast.Node) bool {
+				as, ok := y.(*ast.AssignStmt)
+				if !ok || as.Tok != token.ASSIGN || len(as.Lhs) != len(as.Rhs) {
+					return true
+				}
+				for i, l := range as.Lhs {
+					id, ok := l.(*ast.Ident)
+					if !ok {
+						continue
+					}
+					o := info.ObjectOf(id)
+					if !captured(o) {
+						continue
+					}
+					if v, isConst := boolConst(info, as.Rhs[i]); isConst && isBoolType(o.Type()) {
+						if v {
+							setTrue[o] = as.Pos()
+						} else {
+							setFalse[o] = true
+						}
+						continue
+					}
+					// a captured non-boolean variable re-assigned from a value of the current pair: the group key
+					if rid, ok := ast.Unparen(as.Rhs[i]).(*ast.Ident); ok && !captured(info.ObjectOf(rid)) && !isBoolType(o.Type()) {
+						if _, isBasic := o.Type().Underlying().(*types.Basic); !isBasic {
+							tracksGroup = true
+						}
+					}
+				}
+				return true
+			})
+			if !tracksGroup {
+				return true
+			}
+			for o, pos := range setTrue {
+				n++
+				key := fmt.Sprintf("group-flag-reset:%s.%s", shortSym(FuncKey(fd.Obj)), o.Name())
+				if setFalse[o] {
+					c.OK(key, c.P.Pos(pos), "the per-group decision is taken back inside the walk")
+				} else {
+					c.Fail(key, c.P.Pos(pos), fmt.Sprintf("the walk in %s raises `%s` for the group it is in and never lowers it inside the callback: once one account has a batch above the reset height, every account sorted after it loses all transfer batches but its first - the transfer logs of a reset node differ from those of a node that only synchronised to that height", shortSym(FuncKey(fd.Obj)), o.Name()))
+				}
+			}
+			return true
+		})
+	}
+	c.Floor("group-flag-reset.flags", n, 1)
+}
+
+// ruleResetPrecheckStageGated (C02): the "nothing to do" answer of a reset belongs to a reset that has not begun. A
+// reset resumed after a crash has already moved the heights (the headers stage puts them at the target) and still has
+// state roots, transfers and contract storage to bring back: the success exit that compares heights stands under the
+// test that no stage marker was found.
+func ruleResetPrecheckStageGated(c *Ctx) {
+	fd := c.P.Func("pkg/core", "Blockchain", "resetStateInternal")
+	if fd == nil {
+		c.Lost("reset-precheck-stage-gated.anchor", "Blockchain.resetStateInternal not found")
+		return
+	}
+	info := fd.Pkg.TypesInfo
+	var stage types.Object
+	sig := fd.Obj.Type().(*types.Signature)
+	for i := 0; i < sig.Params().Len(); i++ {
+		if nt, ok := sig.Params().At(i).Type().(*types.Named); ok && nt.Obj().Name() == "stateChangeStage" {
+			stage = sig.Params().At(i)
+		}
+	}
+	if stage == nil {
+		c.Lost("reset-precheck-stage-gated.shape", "resetStateInternal has no stage parameter")
+		return
+	}
+	var firstWrite token.Pos
+	ast.Inspect(fd.Decl.Body, func(x ast.Node) bool {
+		if call, ok := x.(*ast.CallExpr); ok && firstWrite == token.NoPos {
+			if se, ok := ast.Unparen(call.Fun).(*ast.SelectorExpr); ok && (strings.HasPrefix(se.Sel.Name, "Put") || strings.HasPrefix(se.Sel.Name, "Delete") || se.Sel.Name == "Persist" || se.Sel.Name == "PersistSync") {
+				firstWrite = call.Pos()
+			}
+		}
+		return true
+	})
+	n := 0
+	var stack []ast.Node
+	ast.Inspect(fd.Decl.Body, func(x ast.Node) bool {
+		if x == nil {
+			stack = stack[:len(stack)-1]
+			return true
+		}
+		stack = append(stack, x)
+		rs, ok := x.(*ast.ReturnStmt)
+		if !ok || len(rs.Results) != 1 || !isNilIdent(info, rs.Results[0]) || (firstWrite != token.NoPos && rs.Pos() > firstWrite) {
+			return true
+		}
+		n++
+		gated := false
+		for i := len(stack) - 2; i >= 0; i-- {
+			if is, ok := stack[i].(*ast.IfStmt); ok && stack[i+1] == ast.Node(is.Body) {
+				ast.Inspect(is.Cond, func(y ast.Node) bool {
+					if id, ok := y.(*ast.Ident); ok && info.ObjectOf(id) == stage {
+						gated = true
+					}
+					return true
+				})
+			}
+		}
+		if gated {
+			c.OK("reset-precheck-stage-gated", c.P.Pos(rs.Pos()), "the nothing-to-do exit is taken only by a reset that has not begun")
+		} else {
+			c.Fail("reset-precheck-stage-gated", c.P.Pos(rs.Pos()), "resetStateInternal can report success before changing anything without having looked at the stage it was resumed in: a reset interrupted after its headers stage finds blocks and headers at the target on restart and returns at once - state roots, transfers and contract storage of the dropped blocks, the stage marker and the sync point stay in the database, on this start and every later one")
+		}
+		return true
+	})
+	c.Floor("reset-precheck-stage-gated.exits", n, 1)
+}
